@@ -199,3 +199,81 @@ package types
 //@   abstract
 //@ func (*V2Transaction).MerkleLeafHash
 //@   abstract
+
+// ------------------------------------------------------------ encoding.go: Decoder kernel (C10)
+// The wire engine models these methods by a ghost item stream; here their real bodies are
+// verified for what C10 needs of them: no panic, the byte budget d.lr.N never goes negative or
+// up, and an allocation is never larger than the bytes left in the stream.
+// decWF: the Decoder's byte budget is sane (NewDecoder callers pass a non-negative limit).
+
+//@ spec decWF(d *Decoder) bool = 0 <= d.lr.N && d.lr.N <= 2^40
+
+//@ func (*Decoder).SetErr
+//@   prop C10
+//@   modifies d.err, d.buf
+//@   ensures @sticky (old(d.err) != nil ==> d.err == old(d.err)) && (old(d.err) == nil ==> d.err == err)
+//@   ensures d.lr.N == old(d.lr.N)
+
+//@ func (*Decoder).Err
+//@   prop C10
+//@   ensures result == d.err
+
+//@ func (*Decoder).Read
+//@   prop C10
+//@   requires decWF(d)
+//@   modifies d.lr.N, d.buf, d.err, p
+//@   invariant loop#1 @pos 0 <= n && n <= len(p)
+//@   invariant loop#1 @budget 0 <= d.lr.N && d.lr.N <= old(d.lr.N)
+//@   invariant loop#1 @sticky old(d.err) != nil ==> d.err == old(d.err)
+//@   ensures @budget 0 <= d.lr.N && d.lr.N <= old(d.lr.N)
+//@   ensures @sticky old(d.err) != nil ==> d.err == old(d.err)
+//@   ensures @count 0 <= result0 && result0 <= len(p) && (d.err == nil ==> result0 == len(p))
+
+//@ func (*Decoder).ReadBool
+//@   prop C10
+//@   requires decWF(d)
+//@   modifies d.lr.N, d.buf, d.err
+//@   ensures @budget 0 <= d.lr.N && d.lr.N <= old(d.lr.N)
+
+//@ func (*Decoder).ReadUint8
+//@   prop C10
+//@   requires decWF(d)
+//@   modifies d.lr.N, d.buf, d.err
+//@   ensures @budget 0 <= d.lr.N && d.lr.N <= old(d.lr.N)
+
+//@ func (*Decoder).ReadUint64
+//@   prop C10
+//@   requires decWF(d)
+//@   modifies d.lr.N, d.buf, d.err
+//@   ensures @budget 0 <= d.lr.N && d.lr.N <= old(d.lr.N)
+
+//@ func (*Decoder).ReadTime
+//@   prop C10
+//@   requires decWF(d)
+//@   modifies d.lr.N, d.buf, d.err
+//@   ensures @budget 0 <= d.lr.N && d.lr.N <= old(d.lr.N)
+
+//@ func (*Decoder).ReadBytes
+//@   prop C10
+//@   requires decWF(d)
+//@   modifies d.lr.N, d.buf, d.err
+//@   ensures @budget 0 <= d.lr.N && d.lr.N <= old(d.lr.N)
+//@   ensures @alloc-bounded-by-input len(result) <= old(d.lr.N)
+
+//@ func (*Decoder).ReadString
+//@   prop C10
+//@   requires decWF(d)
+//@   modifies d.lr.N, d.buf, d.err
+//@   ensures @budget 0 <= d.lr.N && d.lr.N <= old(d.lr.N)
+//@   ensures @alloc-bounded-by-input len(result) <= old(d.lr.N)
+
+// Generic helpers: the body is verified on one instance (see `instance`); the element's
+// DecodeFrom is inlined or taken by contract.
+
+//@ func DecodeSlice
+//@   prop C10
+//@   instance [types.Hash256,
+//@   requires decWF(d)
+//@   modifies d.lr.N, d.buf, d.err, *s
+//@   invariant loop#1 @budget 0 <= d.lr.N && d.lr.N <= old(d.lr.N)
+//@   ensures @budget 0 <= d.lr.N && d.lr.N <= old(d.lr.N)
